@@ -9,7 +9,7 @@ import os
 import numpy as np
 
 from mc import enum, est, harness, procs, refs
-from mc.common import HarnessError, Stats, pmap, safe, shards, scratch_dir, rm_scratch, VERIF
+from mc.common import HarnessError, Stats, pmap, safe, shards, scratch_dir, rm_scratch, VERIF, isolated
 
 PROPERTY = 'C04'
 LEVEL = 'fault_enumeration'
@@ -242,6 +242,18 @@ def forwarding_cli(st):
                              {'kind': 'forward_value', 'via_cli': via_cli})
 
 
+def _forwarding_job(_):
+    st = Stats()
+    forwarding(st)
+    return st
+
+
+def _forwarding_cli_job(_):
+    st = Stats()
+    forwarding_cli(st)
+    return st
+
+
 def run(ctx):
     # (i)
     nmax = 8 if ctx.thorough else 7
@@ -252,8 +264,16 @@ def run(ctx):
     for st in pmap(_pyfunc_job, jobs):
         ctx.stats.merge(st)
     # (iii)
-    forwarding(ctx.stats)
-    forwarding_cli(ctx.stats)
+    # these families call the compiled estimator with a ratio < 1 inside this interpreter: run them in a child that may die
+    for name, fn in (('forward', _forwarding_job), ('forward_cli', _forwarding_cli_job)):
+        tag, val = isolated(fn, None, timeout=600)
+        if tag == 'ok':
+            ctx.stats.merge(val)
+        elif tag == 'harness':
+            raise HarnessError(val)
+        else:
+            ctx.stats.violation({'kind': name, 'isolated': True}, f'the process running the {name} family ' + ('did not terminate within the time limit' if tag == 'timeout' else f'died with status {val} (signal {-val if isinstance(val, int) and val < 0 else val})')
+                                + ' while calling the estimator with a sampling ratio < 1', {'kind': 'crash', 'family': name})
     # (ii)
     root = scratch_dir('c04')
     try:
@@ -296,14 +316,11 @@ def eval_case(case):
     if k == 'pyfunc':
         fails, _, _ = judge_pyfunc(tuple(case['X']), case['r'])
         return [m for _, m in fails]
-    if k == 'forward_cli':
-        st = Stats()
-        forwarding_cli(st)
-        return [v['what'] for v in st.violations]
-    if k == 'forward':
-        st = Stats()
-        forwarding(st)
-        return [v['what'] for v in st.violations]
+    if k in ('forward_cli', 'forward'):
+        tag, val = isolated(_forwarding_cli_job if k == 'forward_cli' else _forwarding_job, None, timeout=600)
+        if tag == 'ok':
+            return [v['what'] for v in val.violations]
+        return [f'the process running the {k} family ended abnormally: {tag} {val}']
     # compiled: re-run the single case in a fresh interpreter (a crash must not take the runner down)
     Y, X, r, c = case.get('Y'), case.get('X'), case.get('r'), case.get('c')
     if Y is None:
